@@ -197,6 +197,75 @@ def limitHit (lim : Option Nat) (n : Nat) : Bool :=
   | none => false
   | some l => l == n
 
+/-- 1 when KEEP_LAST(depth) and the instance already holds `depth` ALIVE samples (the oldest is replaced) -/
+def replacedCount (q : Qos) (samples : List Sample) (h : Nat) : Nat :=
+  match q.depth with
+  | some d => if d = cnt (isAliveOf h) samples then 1 else 0
+  | none => 0
+
+/-- KEEP_LAST replacement followed by the destination-order insertion -/
+def storeSample (q : Qos) (samples : List Sample) (x : Sample) : List Sample :=
+  let samples3 := if replacedCount q samples x.inst = 1 then eraseFirst (isAliveOf x.inst) samples else samples
+  if q.bySource then insertAt x (insertPos x.sts samples3) samples3 else samples3 ++ [x]
+
+/-- third part of add_reader_change: resource limits, KEEP_LAST replacement, second state update,
+    insertion, ownership time stamp (data_reader_entity.rs:461-610) -/
+def finishAdd (s2 : St) (x : Sample) (rts : Nat) : St × AddRes :=
+  let h := x.inst
+  let replaced := replacedCount s2.qos s2.samples h
+  let totalAlive := cnt isAlive s2.samples
+  let dl := distinctInsts s2.samples []
+  let instHit := !dl.contains h && limitHit s2.qos.maxInst dl.length
+  let nInst := cnt (isInst h) s2.samples
+  let rej (why : Reject) : St × AddRes :=
+    ({ s2 with rej := { total := s2.rej.total + 1, change := s2.rej.change + 1, reason := some why, inst := h } },
+     .rejected h why)
+  if limitHit s2.qos.maxSamples (totalAlive - replaced) then rej .samples
+  else if instHit then rej .instances
+  else if limitHit s2.qos.maxSpi (nInst - replaced) then rej .spi
+  else
+    let insts4 := match touchInst s2.insts h x.kind rts with
+      | some l => l
+      | none => s2.insts
+    let owns4 := match findOwn h s2.owns with
+      | some _ => mapOwn h (fun o => if o.lastRecv < rts then { o with lastRecv := rts } else o) s2.owns
+      | none => s2.owns ++ [{ inst := h, owner := x.writer, lastRecv := rts }]
+    ({ s2 with samples := storeSample s2.qos s2.samples x, insts := insts4, owns := owns4 }, .added)
+
+/-- the EXCLUSIVE ownership filter (data_reader_entity.rs:372-418): `none` = sample dropped -/
+def ownershipFilter (s1 : St) (w h rts : Nat) : Option (List Own) :=
+  if s1.qos.exclusive then
+    let blocked : Bool :=
+      match findOwn h s1.owns with
+      | some o =>
+        match findPub o.owner s1.pubs, findPub w s1.pubs with
+        | some so, some sw => o.owner != w && decide (sw ≤ so)
+        | _, _ => true
+      | none => false
+    if blocked then none
+    else
+      match findOwn h s1.owns with
+      | some _ => some (mapOwn h (fun o => { o with owner := w }) s1.owns)
+      | none => some (s1.owns ++ [{ inst := h, owner := w, lastRecv := rts }])
+  else some s1.owns
+
+/-- second part: not-alive changes drop the ownership entry, then the time-based filter -/
+def afterOwnership (s1 : St) (owns2 : List Own) (x : Sample) (rts : Nat) : St × AddRes :=
+  let owns3 := if x.kind.isAliveKind then owns2 else eraseOwn x.inst owns2
+  let s2 := { s1 with owns := owns3 }
+  if !timeOk s2.qos s2.samples x.inst x.sts then (s2, .notAdded)
+  else finishAdd s2 x rts
+
+/-- generation counters copied into a new sample -/
+def gensOf (h : Nat) (insts : List Inst) : Int × Int :=
+  match findInst h insts with
+  | some i => (i.dgc, i.nwgc)
+  | none => (0, 0)
+
+/-- the sample record built by `addChange` -/
+def mkSample (w : Nat) (data : String) (k : Kind) (h : Nat) (sts : Option Nat) (dgc nwgc : Int) : Sample :=
+  { kind := k, writer := w, inst := h, sts := sts, data := data, read := false, dgc := dgc, nwgc := nwgc }
+
 /-- add_reader_change (data_reader_entity.rs:309) -/
 def addChange (s : St) (w : Nat) (data : String) (k : Kind) (h : Nat) (sts : Option Nat) (rts : Nat) :
     St × AddRes :=
@@ -204,59 +273,10 @@ def addChange (s : St) (w : Nat) (data : String) (k : Kind) (h : Nat) (sts : Opt
   | none => (s, .error)
   | some insts1 =>
     let s1 := { s with insts := insts1 }
-    let (dgc, nwgc) := match findInst h insts1 with
-      | some i => (i.dgc, i.nwgc)
-      | none => (0, 0)
-    let sample : Sample := { kind := k, writer := w, inst := h, sts := sts, data := data, read := false, dgc := dgc, nwgc := nwgc }
-    -- exclusive ownership
-    let ownRes : Option (List Own) :=
-      if s.qos.exclusive then
-        let blocked : Bool :=
-          match findOwn h s1.owns with
-          | some o =>
-            match findPub o.owner s1.pubs, findPub w s1.pubs with
-            | some so, some sw => o.owner != w && decide (sw ≤ so)
-            | _, _ => true
-          | none => false
-        if blocked then none
-        else
-          match findOwn h s1.owns with
-          | some _ => some (mapOwn h (fun o => { o with owner := w }) s1.owns)
-          | none => some (s1.owns ++ [{ inst := h, owner := w, lastRecv := rts }])
-      else some s1.owns
-    match ownRes with
+    let x := mkSample w data k h sts (gensOf h insts1).1 (gensOf h insts1).2
+    match ownershipFilter s1 w h rts with
     | none => (s1, .notAdded)
-    | some owns2 =>
-      let owns3 := if k.isAliveKind then owns2 else eraseOwn h owns2
-      let s2 := { s1 with owns := owns3 }
-      if !timeOk s.qos s2.samples h sts then (s2, .notAdded)
-      else
-        let nAliveInst := cnt (isAliveOf h) s2.samples
-        let replaced : Nat := match s.qos.depth with
-          | some d => if d = nAliveInst then 1 else 0
-          | none => 0
-        let totalAlive := cnt isAlive s2.samples
-        let dl := distinctInsts s2.samples []
-        let instHit := if dl.contains h then false else limitHit s.qos.maxInst dl.length
-        let nInst := cnt (isInst h) s2.samples
-        let rej (why : Reject) : St × AddRes :=
-          ({ s2 with rej := { total := s2.rej.total + 1, change := s2.rej.change + 1, reason := some why, inst := h } },
-           .rejected h why)
-        if limitHit s.qos.maxSamples (totalAlive - replaced) then rej .samples
-        else if instHit then rej .instances
-        else if limitHit s.qos.maxSpi (nInst - replaced) then rej .spi
-        else
-          let samples3 := if replaced = 1 then eraseFirst (isAliveOf h) s2.samples else s2.samples
-          let insts4 := match touchInst s2.insts h k rts with
-            | some l => l
-            | none => s2.insts
-          let samples4 :=
-            if s.qos.bySource then insertAt sample (insertPos sts samples3) samples3
-            else samples3 ++ [sample]
-          let owns4 := match findOwn h owns3 with
-            | some _ => mapOwn h (fun o => if o.lastRecv < rts then { o with lastRecv := rts } else o) owns3
-            | none => owns3 ++ [{ inst := h, owner := w, lastRecv := rts }]
-          ({ s2 with samples := samples4, insts := insts4, owns := owns4 }, .added)
+    | some owns2 => afterOwnership s1 owns2 x rts
 
 /-! ### read / take -/
 
@@ -312,30 +332,39 @@ def collTouch (coll : List Inst) (h : Nat) (k : Kind) : List Inst :=
   | some _ => mapInst h (fun i => i.update k none) coll
   | none => coll ++ [(Inst.new h).update k none]
 
+def consKept (s : Sample) (r : List Sample × List Info × List Inst) : List Sample × List Info × List Inst :=
+  (s :: r.1, r.2)
+
+/-- SampleInfo of a selected sample (ranks still 0); `coll1` = collection instances after this sample -/
+def mkInfo (s : Sample) (i : Inst) (coll1 : List Inst) : Info :=
+  { data := s.data
+    read := s.read
+    viewNew := i.viewNew
+    st := i.st
+    dgc := s.dgc
+    nwgc := s.nwgc
+    srank := 0
+    grank := 0
+    agrank := (i.dgc + i.nwgc) - collGen coll1 s.inst
+    sts := s.sts
+    inst := s.inst
+    pub := s.writer
+    valid := s.kind.isAliveKind }
+
 /-- the retain_mut pass: returns (kept samples, collected infos with ranks still 0, collection instances) -/
 def collectLoop (insts : List Inst) (m : Masks) (only : Option Nat) (take : Bool) (max : Int) :
     List Sample → List Info → List Inst → List Sample × List Info × List Inst
   | [], acc, coll => ([], acc, coll)
   | s :: ss, acc, coll =>
-    if (acc.length : Int) = max then
-      let (k, a, c) := collectLoop insts m only take max ss acc coll
-      (s :: k, a, c)
+    if (acc.length : Int) = max then consKept s (collectLoop insts m only take max ss acc coll)
     else if selects insts m only s then
       match findInst s.inst insts with
-      | none =>
-        let (k, a, c) := collectLoop insts m only take max ss acc coll
-        (s :: k, a, c)
+      | none => consKept s (collectLoop insts m only take max ss acc coll)
       | some i =>
         let coll1 := collTouch coll s.inst s.kind
-        let info : Info := {
-          data := s.data, read := s.read, viewNew := i.viewNew, st := i.st, dgc := s.dgc, nwgc := s.nwgc,
-          srank := 0, grank := 0, agrank := (i.dgc + i.nwgc) - collGen coll1 s.inst,
-          sts := s.sts, inst := s.inst, pub := s.writer, valid := s.kind.isAliveKind }
-        let (k, a, c) := collectLoop insts m only take max ss (acc ++ [info]) coll1
-        if take then (k, a, c) else ({ s with read := true } :: k, a, c)
-    else
-      let (k, a, c) := collectLoop insts m only take max ss acc coll
-      (s :: k, a, c)
+        let r := collectLoop insts m only take max ss (acc ++ [mkInfo s i coll1]) coll1
+        if take then r else consKept { s with read := true } r
+    else consKept s (collectLoop insts m only take max ss acc coll)
 
 def lastAgrankOf (h : Nat) : List Info → Option Int
   | [] => none
@@ -365,32 +394,38 @@ def markViewed (coll : List Inst) (insts : List Inst) : List Inst :=
 inductive Err | noData | badParameter | notEnabled
 deriving DecidableEq, Repr
 
+def unknownInst (insts : List Inst) : Option Nat → Bool
+  | some h => (findInst h insts).isNone
+  | none => false
+
 /-- create_sample_collection (data_reader_entity.rs:152) -/
 def collect (s : St) (max : Int) (m : Masks) (only : Option Nat) (take : Bool) : St × Except Err (List Info) :=
-  let unknown : Bool := match only with
-    | some h => (findInst h s.insts).isNone
-    | none => false
-  if unknown then (s, .error .badParameter)
+  if unknownInst s.insts only then (s, .error .badParameter)
   else
-    let (kept, infos, coll) := collectLoop s.insts m only take max s.samples [] []
-    let infos2 := fillRanks infos infos
-    let s' := { s with samples := kept, insts := markViewed coll s.insts }
+    let r := collectLoop s.insts m only take max s.samples [] []
+    let infos2 := fillRanks r.2.1 r.2.1
+    let s' := { s with samples := r.1, insts := markViewed r.2.2 s.insts }
     if infos2.isEmpty then (s', .error .noData) else (s', .ok infos2)
 
 def readOrTake (s : St) (max : Int) (m : Masks) (only : Option Nat) (take : Bool) : St × Except Err (List Info) :=
   if !s.enabled then (s, .error .notEnabled) else collect s max m only take
 
+/-- `h > previous_handle` (no previous handle: every instance qualifies) -/
+def afterB (prev : Option Nat) (h : Nat) : Bool :=
+  match prev with
+  | some p => decide (p < h)
+  | none => true
+
+def niStep (prev : Option Nat) (best : Option Nat) (i : Inst) : Option Nat :=
+  if afterB prev i.h then
+    match best with
+    | some b => if i.h < b then some i.h else some b
+    | none => some i.h
+  else best
+
 /-- next_instance (data_reader_entity.rs:292): least handle greater than `prev` among known instances -/
 def nextInst (insts : List Inst) (prev : Option Nat) : Option Nat :=
-  insts.foldl (fun (best : Option Nat) i =>
-    let ok := match prev with
-      | some p => decide (p < i.h)
-      | none => true
-    if ok then
-      match best with
-      | some b => if i.h < b then some i.h else some b
-      | none => some i.h
-    else best) none
+  insts.foldl (niStep prev) none
 
 /-- read_next_instance / take_next_instance (user_defined_data_reader.rs:207,237): loop over instances
     without matching samples; fuel = number of instances -/
